@@ -8,6 +8,16 @@ CHECKS = {
     ref="DESIGN.md §3 C20",
     note="Trusted: CPython dict/list/pickle/copy semantics, Hypothesis. No NaN values, no cyclic containers, no None leaves in search trees.",
     technique="property-based testing (Hypothesis recursive strategies + rule-based state machine) against an independent model; bounded enumeration for hex helpers"),
+ "C11": dict(
+    text="Expression ASTs are translated to construct.expr objects through the Python operators (incl. reflected forms) and evaluated against an independent operator-module evaluator, and eval(repr(expr)) with placeholders bound must denote the same function; all depth<=1 trees over the full leaf/operator table and all depth-2 trees over a reduced table are enumerated on small-integer contexts, random trees to depth 5 on typed contexts.",
+    ref="DESIGN.md §3 C11",
+    note="'~' is logical not (documented). Excluded: trees mixing this/obj_, list_, 'in', str % expr (handled by str.__mod__ before the library sees it), astronomically large values (skipped, counted).",
+    technique="bounded-exhaustive enumeration + Hypothesis random trees against an independent evaluator (differential) and eval(repr) (metamorphic)"),
+ "C15": dict(
+    text="XOR (every 1-byte key int/bytes, all-zero and almost-zero keys of every length 1..80, random keys x data, key as constant/this/lambda), rotation (all amounts -64..64 x groups 1..8 x 0..3 groups, bad lengths must raise RotationError on parse and build), ByteSwapped/BitsSwapped on sized and streaming implementations, and zlib/gzip/bzip2/lzma x levels inside Prefixed, each against an independently written definition; inner construct must see the inverse transform, build must emit the transform, both round trips must be identities.",
+    ref="DESIGN.md §3 C15",
+    note="Trusted: stdlib codecs (compressed bytes validated by stdlib decompression, not byte identity; gzip embeds a timestamp).",
+    technique="exhaustive enumeration of parameter grids + Hypothesis random data against independent reference definitions"),
 }
 
 NOT_APPLICABLE = [dict(property_id=p, reason="check not yet built in this revision of /verif (planned, see DESIGN.md §3)") for p in ALL if p not in CHECKS]
